@@ -8,20 +8,25 @@
  * the three kinds, mutates, and collects.  Tokens (ids are positive integers, 0 = NULL):
  *   N<id><K>[!]      new node; K: S probe struct with 2 pointer fields, R Ref, B Box,
  *                    A Array of Ref, L List of Ref, T Table Int->Ref, E Tree Int->Ref,
- *                    U heap Tuple; lower case s r u = the same allocated RAW (not registered);
+ *                    Y Table Ref->Int, Z Tree Ref->Int (the KEYS hold the pointers), U heap Tuple; lower case s r u = the same allocated RAW (not registered);
  *                    ! = allocated with alloc_root/new_root (root flag).  The new pointer is
  *                    put into a stack slot (as a program holding it in a local would).
  *   C<id>=<src>      new node = copy(src) (registered; src is S R A L T E or U)
  *   P<id>.<i>=<t>    pointer store: field i of S (0,1), the pointer of R / B (i = 0)
- *   I<id>,<k>=<t>    insert: A L U push (k ignored); T E set key k -> Ref to t
- *   D<id>,<k>        remove: A L U pop_at index k; T E rem key k
+ *   I<id>,<k>=<t>    insert: A L U push (k ignored); T E set key k -> Ref to t; Y Z set key Ref to t -> k
+ *   D<id>,<k>        remove: A L U pop_at index k; T E rem key k; Y Z rem key Ref to node k
  *   K+<id> K-<id>    stack slot holds / drops the pointer
  *   T+<s>=<id> T-<s> thread-local entry "k<s>" set / removed
  *   X<id>            explicit del(p); the stack slot is cleared
  *   G                forced collection GC_Mark; GC_Sweep, then observation
  *   H                the same with the stack scan narrowed to the collecting frames (gc->bottom
  *                    moved for the duration of the call; stack roots are copied into that frame)
+ *   E                forced collection whose stack pass is EXACT: GC_Mark runs unchanged, but instead of
+ *                    scanning the C stack the (real) GC_Mark_Item is called on exactly the words of the stack
+ *                    slots: the mark bits must then EQUAL the model's
  *   M<n>             allocate n garbage Ints (threshold collections happen inside alloc), observe
+ *   @                (first token) run the whole script in a freshly started Cello Thread: its own
+ *                    collector, its own stack bottom, its own TLS table
  * Transcript: observations separated by " | ":
  *   G m=<ids with mark bit set after GC_Mark> a=<ids alive> f=<probe ids finalised> c=<ids with broken canary> x=<notes>
  *   M a=... f=... c=... t=<threshold collections seen>
@@ -30,7 +35,14 @@
 #include "Cello.h"
 static void hook_dealloc(var p);
 #define dealloc(X) hook_dealloc(X)
+/* the stack pass can be replaced without touching the source (idea: harness/gcreg_wb.c): the
+ * function-like macro renames only the DEFINITION in GC.c; `noinline ? GC_Mark_Stack : ...` inside
+ * GC_Mark has no parenthesis and binds to the harness function declared here */
+struct GC;
+static void GC_Mark_Stack(struct GC* gc);
+#define GC_Mark_Stack(x) GC_Mark_Stack_Original(x)
 #include "GC.c"
+#undef GC_Mark_Stack
 #undef dealloc
 void dealloc(var self);
 #include "hcommon.h"
@@ -103,6 +115,12 @@ static void keep_drop(long id) {
   long s = KSLOT[id] - 1; KEEPP[s] = NULL; KSLOT[id] = 0; KFREE[NKFREE++] = s;
 }
 
+static int EXACT_MODE;
+static void GC_Mark_Stack(struct GC* gc) {
+  if (!EXACT_MODE) { GC_Mark_Stack_Original(gc); return; }
+  for (long s = 0; s < MAXK; s++) if (KEEPP[s]) GC_Mark_Item(gc, KEEPP[s]);
+}
+
 static char XNOTE[256];
 static void note(const char* s) { if (strlen(XNOTE) + strlen(s) + 2 < sizeof XNOTE) { strcat(XNOTE, s); strcat(XNOTE, ";"); } }
 
@@ -123,6 +141,8 @@ static void __attribute__((noinline)) op_new(long id, char k, int root) {
     case 'L': p = root ? (var)new_root(List, Ref) : (var)new(List, Ref); break;
     case 'T': p = root ? (var)new_root(Table, Int, Ref) : (var)new(Table, Int, Ref); break;
     case 'E': p = root ? (var)new_root(Tree, Int, Ref) : (var)new(Tree, Int, Ref); break;
+    case 'Y': p = root ? (var)new_root(Table, Ref, Int) : (var)new(Table, Ref, Int); break;
+    case 'Z': p = root ? (var)new_root(Tree, Ref, Int) : (var)new(Tree, Ref, Int); break;
     case 'U': p = root ? (var)new_root(Tuple) : (var)new(Tuple); break;
     case 'u': p = new_raw(Tuple); break;
     default: note("badkind"); return;
@@ -165,6 +185,7 @@ static void __attribute__((noinline)) op_insert(long id, long k, long t) {
   switch (KIND[id]) {
     case 'A': case 'L': push(p, $R(q)); break;
     case 'T': case 'E': set(p, $I(k), $R(q)); break;
+    case 'Y': case 'Z': set(p, $R(q), $I(k)); break;
     case 'U': case 'u': push(p, q); break;
     default: note("badinsert");
   }
@@ -176,6 +197,7 @@ static void __attribute__((noinline)) op_remove(long id, long k) {
   switch (KIND[id]) {
     case 'A': case 'L': case 'U': case 'u': pop_at(p, $I(k)); break;
     case 'T': case 'E': rem(p, $I(k)); break;
+    case 'Y': case 'Z': { var q = nptr(k); rem(p, $R(q)); q = NULL; break; }
     default: note("badremove");
   }
   p = NULL;
@@ -206,6 +228,16 @@ static void __attribute__((noinline)) do_collect(void) {
   struct GC* gc = current(GC);
   scrub();
   GC_Mark(gc);
+  read_marks(gc);
+  GC_Sweep(gc);
+  gc = NULL;
+}
+
+static void __attribute__((noinline)) do_collect_exact(void) {
+  struct GC* gc = current(GC);
+  EXACT_MODE = 1;
+  GC_Mark(gc);
+  EXACT_MODE = 0;
   read_marks(gc);
   GC_Sweep(gc);
   gc = NULL;
@@ -268,7 +300,7 @@ static void plist(const char* tag, int which) {
 
 static void observe(char what) {
   P("%c", what);
-  if (what == 'G' || what == 'H') plist("m", 0);
+  if (what == 'G' || what == 'H' || what == 'E') plist("m", 0);
   plist("a", 1); plist("f", 2); plist("c", 3);
   if (what == 'M') P(" t=%ld", THRESH);
   if (XNOTE[0]) { P(" x=%s", XNOTE); XNOTE[0] = 0; }
@@ -293,13 +325,14 @@ static void __attribute__((noinline)) exec_tok(char* tok, int* nobs) {
     case 'X': { long id = strtol(tok + 1, &e, 10); op_del(id); break; }
     case 'G': do_collect(); if ((*nobs)++) P(" | "); observe('G'); break;
     case 'H': do_collect_narrow(); if ((*nobs)++) P(" | "); observe('H'); break;
+    case 'E': do_collect_exact(); if ((*nobs)++) P(" | "); observe('E'); break;
     case 'M': { long n = strtol(tok + 1, &e, 10); THRESH = 0; op_burst(n);
       if ((*nobs)++) P(" | "); observe('M'); break; }
     default: note("badop");
   }
 }
 
-static void one_case(char* line) {
+static void one_case_body(char* line) {
   volatile var keep[MAXK];
   for (long i = 0; i < MAXK; i++) { keep[i] = NULL; KFREE[i] = MAXK - 1 - i; }
   NKFREE = MAXK; KEEPP = keep;
@@ -320,6 +353,20 @@ static void one_case(char* line) {
   }
   if (!nobs) P("NOOBS");
   if (XNOTE[0]) P(" x=%s", XNOTE);
+}
+
+static char* THREAD_LINE;
+static var thread_main(var args) { one_case_body(THREAD_LINE); return NULL; }
+
+static void one_case(char* line) {
+  if (line[0] == '@') {
+    THREAD_LINE = line + 1;
+    var t = new_raw(Thread, $(Function, thread_main));
+    call(t);
+    join(t);
+    return;
+  }
+  one_case_body(line);
 }
 
 int main(int argc, char** argv) {
